@@ -8,8 +8,8 @@ wt=/tmp/wt_confirm_$$
 git -C /repo worktree add -q "$wt" HEAD || exit 3
 trap 'git -C /repo worktree remove --force "$wt"' EXIT
 cd "$wt"
-tp=$(python3 -c "import json;print(json.load(open('$d/meta.json'))['test_path'])")
-run=$(python3 -c "import json;print(json.load(open('$d/meta.json'))['test_run'])" | sed "s#/tmp/wt_C[0-9]*#$wt#g; s#^cd [^&]*&& ##")
+tp=$(python3 -c "import json;print(json.load(open('$d/meta.json'))['test_path'].split()[0])")
+run=$(python3 -c "import json;print(json.load(open('$d/meta.json'))['test_run'])" | sed "s#/tmp/wt[0-9]*_C[0-9]*#$wt#g; s#^cd [^&]*&& ##")
 git apply "$d/patch.diff" || { echo "RESULT $d patch-does-not-apply"; exit 1; }
 go build ./... || { echo "RESULT $d does-not-compile"; exit 1; }
 suite=$(go test -vet=off -count=1 ./... 2>&1 | grep -c "^FAIL")
